@@ -472,6 +472,9 @@ func relatedSelected(e *Env, parent map[string]any, rules []map[string]any, obj 
 		_, hasSel := r["labelSelector"]
 		rns, _ := r["namespace"].(string)
 		names, _ := r["names"].([]any)
+		if !hasSel && rns == "" && len(names) == 0 {
+			return true // a bare rule selects every object of the resource
+		}
 		if hasSel && rns == "" && len(names) == 0 {
 			if labelSelectorMatches(r["labelSelector"], LabelsOf(obj)) {
 				return true
